@@ -350,6 +350,7 @@ LEVEL_TEXT = (
     "switch combinations; every scale-variation key is compared with (a) the mu_R renormalisation-group identities written on the output keys (exact, 1e-12, up to PTO 3 incl. mixed keys), "
     "(b) the mu_F identities c0 P0, c1 P0 + c0 P1, (c0 P0 P0 + beta0 c0 P0)/2 evaluated with independently built flavour-space DGLAP operators (hand-written valence/sea decomposition, reference "
     "convolution on the reference basis), and (c) the switch semantics (switched-off logs exactly 0, everything else bit-identical)."
+    " The lattice includes Q2 exactly at / one ulp around every matching scale (default and kThr != 1 cards), runners spanning several n_f regions, other grids, non-canonical beams, nuclear targets and a polarised beam."
 )
 LEVEL_NOTE = (
     "Trusted: ref_conv/ref_basis, hand-written LO splitting functions, the library's NLO splitting kernels as functions of z (benchmarked against eko's anomalous dimensions by the test-suite; distribution "
